@@ -32,7 +32,8 @@ def find_pe_files(data: bytes) -> list[Node]:
         size = pe_size(data[mz_offset:])
         if size == 0:
             continue
-        end = mz_offset + size
+        # Section headers of a truncated or malformed file can point past the end of the data
+        end = min(mz_offset + size, len_data)
         pe_files.append(Node("pe_file", data[mz_offset:end], "", mz_offset, end))
     return pe_files
 
